@@ -69,6 +69,25 @@ func (r *RAT[K, V]) Write(k K, value V) {
 	}
 }
 
+// WriteSorted writes value like Write and then moves it back, past the entries
+// that are greater than it according to less, so that the ring stays sorted
+// even if values are not written in order (the newest slot holds the greatest
+// value).
+func (r *RAT[K, V]) WriteSorted(k K, value V, less func(a, b V) bool) {
+	r.Write(k, value)
+	values := r.values[k]
+	n := len(values)
+	i := r.idx[k]
+	for steps := 1; steps < n; steps++ {
+		prev := (i - 1 + n) % n
+		if !less(values[i], values[prev]) {
+			break
+		}
+		values[i], values[prev] = values[prev], values[i]
+		i = prev
+	}
+}
+
 func (r *RAT[K, V]) Values() map[K]V {
 	m := make(map[K]V)
 	for k, v := range r.idx {
